@@ -87,7 +87,7 @@ def defects(rng):
         ("fuzzy on a non-word", mk("Fuzzy", [rng.choice([P('"a"'), mk("Group", [W("a")])])], num=num(1))),
         ("proximity on a non-phrase", mk("Proximity", [rng.choice([W("a"), mk("Group", [P('"a"')])])], num=num(2))),
         ("negative fuzziness", mk("Fuzzy", [W("a")], num=num(rng.choice([1, 5]), rng.choice([0, -1]), neg=True))),
-        ("invalid field name", mk("SearchField", [W("a")], name=rng.choice(["bad name", "a-b", "", "a.b", "f:g", "cafe\u0301", "a\u00b7b"]))),
+        ("invalid field name", mk("SearchField", [W("a")], name=rng.choice(["bad name", "a-b", "", "a.b", "f:g", "cafe\u0301", "a\u00b7b", "x\n", "f\n"]))),
         ("non-value field expression", mk("SearchField", [rng.choice([
             mk("AndOperation", [W("a"), W("b")]), mk("Range", [W("a"), W("b")], il=True, ih=True),
             mk("Not", [W("a")]), mk("SearchField", [W("a")], name="g"), mk("Regex", v="/a/")])], name="f")),
